@@ -260,3 +260,45 @@ class WithRep:
     def fail_path(self, path, label, facts=None, scenarios=None, judge=None, detail=None, extra=None):
         return self._O.fail_path(path, label, dict(self._rep.facts, what=label[:90]), self._rep.battery, self._rep.judge,
                                  detail=detail, extra=extra)
+
+
+GLUE_ALLOWED = {
+    "next": (r"DataRowIteratorTestData::get_row$", r"DataRowIterator::handle_io$", r"EvaluatedRow::into_data_row$"),
+    "handle_io": (r"TestDriver>::write_input$", r"TestDriver>::write_input_and_read_output$",
+                  r"DataRowIteratorTestData::extract_output_values$", r"EvalContext::set_outputs$"),
+}
+
+
+def glue_keeps_state(O, rep):
+    """DataRowIterator::next / handle_io are glue: on every path (also the error arms) they store nothing into the
+    iterator themselves and call nothing but get_row / handle_io / into_data_row resp. the driver, set_outputs and
+    extract_output_values - so what a later row sees (remembered previous row, variable maps, generator, statement
+    position) is changed only by those functions, whatever the driver answered."""
+    import re
+    for which, kw in (("next", {"file": "data_row_iterator.rs"}), ("handle_io", {})):
+        fn = O.find("::" + which, **kw)
+        eng = O.engine()
+        eng.keep_events(*KEEP)
+        eng.keep_events(r"handle_io$")
+        paths = O.explore(eng, fn)
+        n = 0
+        for p in paths:
+            eng.focus(p)
+            if p.outcome == "panic":
+                rep.fail(O, p, "%s panics: %s" % (which, p.detail))
+                continue
+            if p.outcome != "return":
+                continue
+            n += 1
+            ws = [w for w in p.state.extra.get("writes", [])]
+            if ws:
+                rep.fail(O, p, "%s itself stores into the iterator's state (%s in %s)" % (which, ws[0][1], ws[0][0]))
+                continue
+            for e in p.trace:
+                if e.kind != "call":
+                    continue
+                if not any(re.search(a, e.norm) for a in GLUE_ALLOWED[which]):
+                    rep.fail(O, p, "%s calls %s" % (which, e.norm.split("::")[-1]))
+                    break
+        if n == 0:
+            O.inconclusive("vacuous: no returning path of %s" % which)
